@@ -609,6 +609,11 @@ func (c *compiler) buildLA(useTransitions, stats bool) {
 				}
 			}
 
+			if !slices.Contains(c.states[curr].reduce, rule) {
+				// This rule was pruned from the inner chain of transitions (by .greedy), and the
+				// remaining symbols took us through the transitions of other rules.
+				continue rules
+			}
 			if !c.states[curr].lr0 {
 				// Rule's lookahead symbols include follow set for the current goto (gt).
 				addLookback(curr, rule, gt)
